@@ -112,7 +112,28 @@ def gen_trickle(rng):
             "reqs": [{"chunks": chunks, "close": rng.random() < 0.3}], "script": script, "plan": plan, "workers": 1}
 
 
-GENS = [(gen_generic, 5), (gen_mark, 3), (gen_tail, 2), (gen_trickle, 2)]
+def gen_migrate(rng):
+    """small STRBUF_LIMIT / outbuf_overflow / outbuf_high_watermark: the output buffers change representation
+    (bytes -> BytesIO -> temporary file) and rotate with NON-ZERO read positions, under partial sends, while the
+    producer is paused and released: total_outbufs_len versus what the buffers really hold"""
+    nreq = rng.choice([1, 1, 2])
+    reqs = [{"chunks": [rng.choice([30, 50, 70]) for _ in range(rng.choice([3, 4, 5, 6]))], "close": False} for _ in range(nreq)]
+    overflow = rng.choice([80, 120, 200])
+    hw = rng.choice([overflow + 60, overflow + 150, 400, max(40, overflow - 30)])
+    plan = [rng.choice([3, 7, 20, 45])] + [0] * rng.randrange(2, 7)
+    for _ in range(rng.randrange(0, 4)):
+        plan += [rng.choice([5, 11, 30, 64]), 0]
+    script = [["send", i] for i in range(nreq)]
+    if rng.random() < 0.5:
+        script[1:1] = [["stall"], ["resume"]]
+    return {"family": "migrate",
+            "adj": {"outbuf_high_watermark": hw, "send_bytes": rng.choice([1, 1, 50]), "outbuf_overflow": overflow,
+                    "channel_request_lookahead": rng.choice([0, 1])},
+            "reqs": reqs, "script": script, "plan": plan, "workers": rng.choice([1, 2]),
+            "strbuf_limit": rng.choice([16, 64, 64, 8192]), "sndbuf": rng.choice([32, 64, 1 << 16])}
+
+
+GENS = [(gen_generic, 5), (gen_mark, 3), (gen_tail, 2), (gen_trickle, 2), (gen_migrate, 4)]
 
 
 def gen_scenario(rng):
@@ -157,6 +178,8 @@ class Campaign:
         self.samples = []
         self.max_excess = None
         self.conf_fail = []
+        self.migrations = {}
+        self.runs_with_migration = 0
 
     def one(self, scn, schedule=(), policy=None):
         ctx = self.ctx
@@ -178,6 +201,21 @@ class Campaign:
         k = "hw%s/sb%s" % (("0" if scn["adj"]["outbuf_high_watermark"] == 0 else "+"),
                            ("<=hw" if scn["adj"]["send_bytes"] <= scn["adj"]["outbuf_high_watermark"] else ">hw"))
         self.hwsb[k] = self.hwsb.get(k, 0) + 1
+        # representation changes of outbufs[0..] seen between consecutive snapshots (s bytes, b BytesIO, t tempfile)
+        prevk = None
+        mig = 0
+        for i_ in sorted(w.sched.snaps):
+            sn_ = w.sched.snaps[i_]
+            if sn_ is None:
+                continue
+            k_ = sn_["k"]
+            if prevk is not None and k_ != prevk and len(k_) == len(prevk):
+                for a_, b_ in zip(prevk, k_):
+                    if a_ != b_:
+                        self.migrations[a_ + ">" + b_] = self.migrations.get(a_ + ">" + b_, 0) + 1
+                        mig += 1
+            prevk = k_
+        self.runs_with_migration += 1 if mig else 0
         # monitors
         for key, kf, text in cf.monitors(w, verdict):
             self.findings[(key, kf)] = self.findings.get((key, kf), 0) + 1
@@ -276,7 +314,7 @@ def run(ctx):
                runner is not None and camp.follow_bad == 0 and camp.followed > 0,
                "%d of %d traces diverge" % (camp.follow_bad, camp.followed))
     unknown = [k for k in camp.findings if k[1] is None]
-    ctx.oblige("monitors: bound / release / abort / order hold on every real run outside the known-finding classes",
+    ctx.oblige("monitors: accounting (total_outbufs_len == bytes held == appended - sent) / bound / release / abort / order / nothing left hold on every real run",
                not unknown, "; ".join("%s x%d" % (k[0], camp.findings[k]) for k in unknown))
 
     # ---- (4) the model's own breadth-first search agrees with the theorems on small instances
@@ -315,6 +353,7 @@ def run(ctx):
             "verdicts": camp.verdicts, "families": camp.families, "watermark_vs_send_bytes": camp.hwsb,
             "runs_with_parked_producer": camp.parks, "runs_with_close": camp.closes, "runs_with_lockable_flush": camp.lockable,
             "findings": {"%s/%s" % k: v for k, v in camp.findings.items()},
+            "runs_with_buffer_migration": camp.runs_with_migration, "buffer_migrations": camp.migrations,
         },
         "exhaustive": False,
         "bounded_exploration": exh,
